@@ -123,7 +123,7 @@ func c18EvalPrefix(name, prefix string, consts []string, strs []string, par bool
 // c18CountCtx counts how often a stage reads its context.
 type c18CountCtx struct{ n int }
 
-func (c *c18CountCtx) GetMatch(idx int) string { c.n++; return "" }
+func (c *c18CountCtx) GetMatch(idx int) string  { c.n++; return "" }
 func (c *c18CountCtx) GetKey(key string) string { c.n++; return "" }
 
 // c18Keyword classifies what `{time <word>}` compiled to by observation: `now` is a constant near the
@@ -213,6 +213,14 @@ func c18Run(f []string) string {
 		return c18One("duration", 1, nil, hs(1))
 	case "durf":
 		return c18One("durationformat", 1, nil, hs(1))
+	case "frac": // frac f unit k: the binary64 term of ParseDuration's fraction, computed by the hardware
+		fv, _ := strconv.ParseUint(f[1], 10, 64)
+		unit, _ := strconv.ParseUint(f[2], 10, 64)
+		scale := 1.0
+		for i := atoi(3); i > 0; i-- {
+			scale *= 10
+		}
+		return fmt.Sprintf("ok %d", uint64(float64(fv)*(float64(unit)/scale)))
 	case "zone": // zone zonehex table at|date n: Go's own zone arithmetic against the transition-table model
 		z := c18LoadZone(hs(1))
 		n, _ := strconv.ParseInt(f[4], 10, 64)
@@ -736,6 +744,19 @@ func c18Gen(r *Rand, tier string) []string {
 		}
 	}
 
+	// durations with a fraction (binary64 arithmetic inside time.ParseDuration) and the float term alone
+	nf := 500
+	if tier == "thorough" {
+		nf = 40000
+	}
+	for i := 0; i < nf; i++ {
+		add("dur " + HexS(c18DurFrac(r)))
+		if i%2 == 0 {
+			f, unit, k := c18FracTerm(r)
+			add(fmt.Sprintf("frac %d %d %d", f, unit, k))
+		}
+	}
+
 	// the cache stage behind a partly constant date expression, sequentially and from 8 goroutines
 	ne := 250
 	if tier == "thorough" {
@@ -871,6 +892,103 @@ func c18DurString(r *Rand) string {
 		v = -v
 	}
 	return (time.Duration(v) * time.Second).String()
+}
+
+var c18DurUnits = []struct {
+	name string
+	ns   uint64
+}{{"ns", 1}, {"us", 1e3}, {"µs", 1e3}, {"μs", 1e3}, {"ms", 1e6}, {"s", 1e9}, {"m", 6e10}, {"h", 36e11}, {"s", 1e9}, {"h", 36e11}, {"m", 6e10}}
+
+var c18FracHand = []string{"16777216.999999999s", "-16777216.999999999s", "16777215.999999999s", "4660h20m16.999999999s", "0.25h", "0.25000000000000h", "0.05m", "0.05000000000000m",
+	"0.00000000005m", "0.00000000005000m", "9223372036.854775807s", "9223372036.854775808s", "-9223372036.854775808s", "-9223372036.854775809s", ".5h", "1.0000000000000000000000000001s",
+	"0.9223372036854775807s", "0.9223372036854775808s", "0.9223372036854775809s", "0.92233720368547758080s", "0.922337203685477580799s", "0.1ns", "0.9ns", "0.5ns", "1.5ns", "0.3us", "0.0003us",
+	"2562047.999999999999h", "2562047.788015215h", "2562047.7880152155h", "2562047.78801521550194h", "153722867.280912930m", "153722867.280912931m", "0.000000000000000000001h", "1.999999999s1.999999999s",
+	"0.5h0.5m0.5s0.5ms0.5us0.5ns", "1.s", "1.0s", ".0s", "0.0000000000000000000000000000s", "8589934592.999999999s", "2097152.999999999s", "1.9999999999s", "4294967296.999999999s",
+	"0.00750000000000h", "1.05000000000000m", "0.95000000000000h", "-0.25000000000000h", "0.000000001s", "0.0000000001s", "0.0000000009s", "0.00000000099999999999999999s"}
+
+func c18Digits(r *Rand, n int) string {
+	b := make([]byte, n)
+	switch r.Intn(6) {
+	case 0: // all nines
+		for i := range b {
+			b[i] = '9'
+		}
+	case 1: // a few digits, zero padded
+		for i := range b {
+			b[i] = '0'
+		}
+		for i := 0; i < len(b) && i < 1+r.Intn(4); i++ {
+			b[i] = byte('0' + r.Intn(10))
+		}
+	case 2: // leading zeros, then digits
+		z := r.Intn(n + 1)
+		for i := range b {
+			if i < z {
+				b[i] = '0'
+			} else {
+				b[i] = byte('0' + r.Intn(10))
+			}
+		}
+	default:
+		for i := range b {
+			b[i] = byte('0' + r.Intn(10))
+		}
+	}
+	return string(b)
+}
+
+// c18DurFrac: duration strings whose groups carry a decimal fraction.
+func c18DurFrac(r *Rand) string {
+	if r.Chance(1, 6) {
+		return Pick(r, c18FracHand)
+	}
+	var sb strings.Builder
+	if r.Chance(1, 3) {
+		sb.WriteString(Pick(r, []string{"-", "-", "+"}))
+	}
+	groups := 1
+	if r.Chance(1, 4) {
+		groups = r.Range(2, 3)
+	}
+	for g := 0; g < groups; g++ {
+		u := Pick(r, c18DurUnits)
+		// integer part: empty, small, around 2^21 / 2^24 / 2^33 seconds, near the int64 limit of the unit
+		switch r.Intn(8) {
+		case 0:
+		case 1, 2:
+			sb.WriteString(strconv.Itoa(r.Intn(100)))
+		case 3:
+			sb.WriteString(strconv.FormatUint(Pick(r, []uint64{2097151, 2097152, 16777215, 16777216, 16777217, 8589934592, 4294967296})+uint64(r.Intn(3)), 10))
+		case 4:
+			lim := uint64(1<<63) / u.ns
+			sb.WriteString(strconv.FormatUint(lim-uint64(r.Intn(3)), 10))
+		case 5:
+			lim := uint64(1<<63) / u.ns
+			sb.WriteString(strconv.FormatUint(r.U64()%(lim+1), 10))
+		default:
+			sb.WriteString(strconv.Itoa(r.Intn(100000)))
+		}
+		sb.WriteString(".")
+		sb.WriteString(c18Digits(r, Pick(r, []int{0, 1, 1, 2, 3, 3, 6, 8, 9, 9, 10, 11, 12, 13, 14, 15, 16, 17, 18, 19, 20, 21, 25, 30})))
+		sb.WriteString(u.name)
+	}
+	s := sb.String()
+	if r.Chance(1, 25) {
+		s = c18Mutate(r, s)
+	}
+	return s
+}
+
+// c18FracTerm: operands of the float term of a fraction: f has k digits (k <= 19, f <= 2^63).
+func c18FracTerm(r *Rand) (uint64, uint64, int) {
+	u := Pick(r, c18DurUnits)
+	k := r.Range(1, 19)
+	ds := strings.TrimLeft(c18Digits(r, k), "0")
+	f, err := strconv.ParseUint(ds, 10, 64)
+	if err != nil || f == 0 || f > 1<<63 {
+		f = uint64(1 + r.Intn(1000))
+	}
+	return f, u.ns, k
 }
 
 // c18SeqCase: a `cache` or `auto` stage evaluated on several inputs in order.
